@@ -317,6 +317,9 @@ fn run_session(minh: i32, seg: &Seg, toks: &[Tok]) -> Result<Session, String> {
         let (s2, rx2, eof2) = (sock.try_clone().map_err(|_| "harness:clone".to_string())?, rx.clone(), eof.clone());
         thread::spawn(move || node_reader(s2, rx2, eof2));
     }
+    // the peer speaks first (its version): have it in hand before the node writes anything, so that a reset caused by the
+    // node still writing to a peer that has already closed cannot discard it unread (a transport effect, not the peer's)
+    wait_until(Duration::from_secs(1), || !rx.lock().unwrap().is_empty() || eof.load(Ordering::SeqCst));
 
     let mut buf: Vec<u8> = Vec::new();
     let mut nframes = 0usize;
@@ -482,7 +485,11 @@ fn summarise_race(s: &Session) -> String {
         sends, lsrx, s.after, s.conn as u8, s.late.0, s.late.1, s.late.2, s.panics)
 }
 
+#[path = "c12conc.rs"]
+mod conc;
+
 pub fn exec(op: &str, a: &[&str]) -> Option<String> {
+    if op == "c12.conc" { return Some(conc::exec_conc(a)); }
     if op != "c12.session" && op != "c12.race" { return None; }
     if a.len() != 3 { return Some("bad-request".into()); }
     let minh: i32 = match a[0].parse() { Ok(v) => v, Err(_) => return Some("bad-request".into()) };
@@ -603,6 +610,8 @@ fn fault_tok(r: &mut Rng) -> String {
 fn session(minh: i32, seg: &str, toks: &[String]) -> String { format!("c12.session {} {} {}", minh, seg, toks.join(",")) }
 
 pub fn gen(tier: &str, rng: &mut Rng, out: &mut Vec<String>) {
+    // steered sessions: the interleaving model replayed through the H3 sync points (c12conc.rs)
+    if chain_gang::util::verif_hooks::PEER_HOOKS { conc::gen_conc(tier, &mut rng.fork(), out); }
     let thorough = tier == "thorough";
     let mult = if thorough { 8 } else { 1 };
     let hs = |r: &mut Rng| -> Vec<String> { vec![format!("f:{}", cp(&good_version(r))), "f:verack:-".to_string()] };
